@@ -52,6 +52,16 @@ Theorem C10_update_meta_refuted_for_min_merge :
       exists s, In s (g_steps g') /\ eligible_spec g' s = true /\ ~ In s (dispatch_set g').
 Proof. exact update_meta_min_merge_refuted. Qed.
 
+(* The driver loop Scheduler._update_meta_after is TRANSLATED as far as its first iteration goes (generated
+   after_first_round = the initial value of its variable `first`).  With `first = False` -- only seeds whose value
+   changes are written and propagated from -- C10_update_meta_correct is false: a flagged step whose own value is
+   already right hides a stale producer, which stays eligible by definition and is never dispatched. *)
+Theorem C10_update_meta_refuted_without_first_round :
+  exists g, WF g /\ Acyclic g /\ FlagInv g /\ HasHashInv g /\
+    exists g', update_meta_from false g = Some g' /\ ~ AllCorrect g' /\
+      exists s, In s (g_steps g') /\ eligible_spec g' s = true /\ ~ In s (dispatch_set g').
+Proof. exact update_meta_without_first_round_refuted. Qed.
+
 (* The three updates separately. *)
 Theorem C10_update_meta_ready_correct :
   forall g, FlagInv_ready g ->
